@@ -31,12 +31,12 @@ LEVEL_NOTE = ("Theorems relate the Gallina model coq/Valid/*.v of the rule visit
               "otherwise tied to the repository by the per-rule correspondence. The set of rule "
               "labels is obtained by running each rule class alone through the public validators= parameter.")
 RULE = ("base documents = valid-by-construction documents and single labelled violators (26 labels) over generated schemas; "
-        "for each base: a permutation of the definitions, of all selection lists, of all argument lists, a consistent renaming "
+        "for each base: a permutation of the definitions, of all selection lists, of all argument lists, of the fields of all input object literals, a consistent renaming "
         "of aliases/fragments/variables to fresh names, and re-spellings of insignificant trivia (commas, line breaks, "
         "comments, tight); the label set of every variant must equal the base's and the model's. "
         "non-trivial = variant text differs from the base text; distinct = distinct (schema, text)")
 
-VARIANTS = ["base", "perm_defs", "perm_sels", "perm_args", "rename", "trivia"]
+VARIANTS = ["base", "perm_defs", "perm_sels", "perm_args", "perm_fields", "rename", "trivia"]
 
 
 def _mk(sdl, tree, base_text, variant, label, origin, style="plain"):
@@ -57,6 +57,11 @@ def variants_of(rng, sdl, tree, label, origin, styles):
     if not gen_valid.duplicate_arg_names(tree):
         out.append(_mk(sdl, gen_valid.permute_arguments(rng, tree), base_text, "perm_args", label, origin))
     if not any(d["kind"] == "raw" for d in tree["defs"]):
+        # the fields of every input object literal (arguments, list items, nested fields, variable
+        # defaults) in another order -- one ranking of the names, so that equal literals stay equal
+        pf = gen_valid.permute_input_fields(rng, tree)
+        if pf is not None and gen_valid.render(pf, "plain") != base_text:
+            out.append(_mk(sdl, pf, base_text, "perm_fields", label, origin))
         out.append(_mk(sdl, gen_valid.rename(rng, tree), base_text, "rename", label, origin))
     for st in styles:
         out.append(_mk(sdl, tree, base_text, "trivia", label, origin, st))
@@ -119,6 +124,21 @@ def corpus():
         first.setdefault(name, text)
         out.append({"sdl": c05.MEMO_SDL, "text": text, "base_text": first[name],
                     "variant": "base" if text == first[name] else "perm_sels", "origin": "witness"})
+    # seeded C06-h: every order of the required fields of an input object literal is a perm_fields
+    # variant of the declaration order (argument value, list item, nested field, variable default)
+    ro = [(n, gen_valid.render({"defs": defs}, "plain")) for n, defs in c05._RO]
+    first = {}
+    for n, text in ro:
+        kind = n.rsplit("-", 1)[0]
+        first.setdefault(kind, text)
+        out.append({"sdl": c05.WITNESS_SDL, "text": text, "base_text": first[kind],
+                    "variant": "base" if text == first[kind] else "perm_fields", "origin": "witness"})
+    # seeded C05-h: the two orders of two same-key fields with related argument literals
+    oa = dict((n, gen_valid.render({"defs": defs}, "plain")) for n, defs in c05._OA)
+    for n, text in oa.items():
+        name, order, place = n.rsplit("-", 2)
+        out.append({"sdl": c05.WITNESS_SDL, "text": text, "base_text": oa["%s-%d-%s" % (name, 1 - int(order), place)],
+                    "variant": "perm_sels", "origin": "witness"})
     chain = c05._CHAIN
     head = "query Q($v: Int) { anchor(req: 1, inn: {v: 1}, lnn: [1]) { ...Ta } }"
     base = head + " " + " ".join(chain)
